@@ -9,5 +9,6 @@ CONSTANTS
   Ops <- MC_AllOps
   ReqVers <- MC_V4
   Lazies <- MC_Both
+  Dev = {}
   Known <- MC_Skip
 CHECK_DEADLOCK FALSE
